@@ -3,13 +3,13 @@ CONSTANTS
     Quorum = 1
     MaxEpoch = 3
     MaxImm = 1
-    LabelChecked = FALSE
-    AtomicSeal = FALSE
+    LabelChecked = TRUE
+    AtomicSeal = TRUE
     RegSets = {{p1}}
-    MaxCerts = 5
+    MaxCerts = 3
     MaxDepthHist = 0
-    ExcuseDoubleCert = TRUE
-    ExcuseRelabel = TRUE
+    ExcuseDoubleCert = FALSE
+    ExcuseRelabel = FALSE
 SPECIFICATION Spec
 VIEW view
 CONSTRAINT Bound
